@@ -359,7 +359,18 @@ class Walker:
             # Print deprecation warning here?
             include = [include]
         self.include = include
-        self.excluded = set(exclude or [])
+        # An excluded tag stands for the commit it points at, like an
+        # included one (which _push peels): the walk compares commit ids.
+        self.excluded = set()
+        for sha in exclude or []:
+            try:
+                obj = store[sha]
+                while isinstance(obj, Tag):
+                    sha = obj.object[1]
+                    obj = store[sha]
+            except KeyError:
+                pass  # reported as a missing commit when the walk starts
+            self.excluded.add(sha)
         self.order = order
         self.reverse = reverse
         self.max_entries = max_entries
